@@ -9,11 +9,15 @@
      DOMSupport/DOMServices.cpp : doGetNodeData family (string-value through the decision)
      XSLT/XSLTEngineImpl.cpp    : cloneToResultTree (copy through the decision)
 
-   What the code does NOT do (read from the code; GenStrip.consults_xml_space = false): it never looks
-   at xml:space attributes of the source.  XSLT 1.0 section 3.4 keeps a whitespace text node that has an
-   ancestor with xml:space="preserve" (and no closer xml:space="default"); the code strips it.  The model
-   is faithful to the code; the Recommendation's rule is [rec_keeps_xmlspace] below and the deviation is
-   the known finding K-C13-1 (Properties_C13: xml_space_rule_refuted / xml_space_rule_partial).
+   xml:space: a whitespace text node is additionally kept when the nearest ancestor-or-parent element
+   that carries an xml:space attribute says "preserve" (XSLT 1.0 section 3.4).  Every tree function
+   therefore threads a KEY down: the parent's name and the inherited xml:space state ([key],
+   [child_key]); the removal so modelled is the Recommendation's [rec_remove]
+   (StripTreeModel: xml_space_rule_lemma; Properties_C13: xml_space_rule).
+   The code (fix K-C13-1, GenStrip.consults_xml_space = true) searches UPWARDS from the parent instead
+   (StylesheetRoot.cpp: isXMLSpacePreserved): StripXsDefs.v models that search, StripXsModel.v proves both agree.
+   Result tree fragment nodes are exempt from the decision (GenStrip.rtf_nodes_exempt) and CDATA section nodes of a
+   wrapped DOM are text for it (GenStrip.cdata_is_text_for_strip); neither is modelled here.
 
    Names are numbers: a qname is (namespace id, local-name id), namespace id 0 = no namespace.
    Characters are code points (N). *)
@@ -150,58 +154,100 @@ Definition text_ws (d : str) : bool := forallb ws_char d.
 Definition pred := qname -> bool.
 Definition no_strip : pred := fun _ => false.
 
-(* is child k of an element named pn ignored *)
-Definition stripped (st : pred) (pn : qname) (k : node) : bool :=
+(* xml:space (XSLT 1.0 section 3.4): xs = the inherited xml:space state (true = preserve) *)
+Definition xml_ns : N := 1.          (* namespace id reserved for http://www.w3.org/XML/1998/namespace *)
+Definition space_local : N := 1.     (* local-name id reserved for "space" inside xml_ns *)
+Definition preserve_value : str := [112; 114; 101; 115; 101; 114; 118; 101]%N.   (* "preserve" *)
+Definition default_value : str := [100; 101; 102; 97; 117; 108; 116]%N.          (* "default" *)
+
+Definition str_eqb (a b : str) : bool :=
+  (fix go a b := match a, b with [] , [] => true | x :: a', y :: b' => N.eqb x y && go a' b' | _, _ => false end) a b.
+
+Definition xml_space_of (xs : bool) (attrs : list (qname * str)) : bool :=
+  match find (fun a => N.eqb (fst (fst a)) xml_ns && N.eqb (snd (fst a)) space_local) attrs with
+  | Some (_, v) => if str_eqb v preserve_value then true else if str_eqb v default_value then false else xs
+  | None => xs
+  end.
+
+(* the key with which the children of an element are looked at: the element's (= their parent's) name,
+   and: do the parent's children inherit xml:space="preserve" *)
+Definition key := (qname * bool)%type.
+Definition root_key : key := ((0, 0)%N, false).
+
+(* the key with which an element named n with attributes a, itself looked at with key pk, looks at its
+   children *)
+Definition child_key (pk : key) (n : qname) (a : list (qname * str)) : key := (n, xml_space_of (snd pk) a).
+
+(* the key with which node x, itself looked at with key pk, looks at its children *)
+Definition kids_key (pk : key) (x : node) : key :=
+  match x with
+  | Elem n a _ => child_key pk n a
+  | _ => pk
+  end.
+
+(* is child k of an element whose children are looked at with key pk ignored *)
+Definition stripped (st : pred) (pk : key) (k : node) : bool :=
   match k with
-  | Text d => text_ws d && st pn
+  | Text d => text_ws d && st (fst pk) && negb (snd pk)
   | _ => false
   end.
 
-Definition visible (st : pred) (pn : qname) (k : node) : bool := negb (stripped st pn k).
+Definition visible (st : pred) (pk : key) (k : node) : bool := negb (stripped st pk k).
 
-(* physical removal of the stripped text nodes *)
-Fixpoint remove_stripped (st : pred) (x : node) : node :=
+(* physical removal of the stripped text nodes from x, itself looked at with key pk *)
+Fixpoint remove_stripped (st : pred) (pk : key) (x : node) : node :=
   match x with
-  | Elem n a ks => Elem n a (filter (visible st n) (map (remove_stripped st) ks))
+  | Elem n a ks =>
+      let ck := child_key pk n a in
+      Elem n a (filter (visible st ck) (map (remove_stripped st ck) ks))
   | _ => x
   end.
 
 (* ------------------------------------------------------------------------------------------------ *)
-(* observations, each parameterised by the strip predicate (consulted where the code consults it) *)
+(* observations, each parameterised by the strip predicate (consulted where the code consults it) and
+   by the key pk with which the node itself is looked at *)
 
 (* child::node() — NodeTester::testNode on every child *)
-Definition children (st : pred) (x : node) : list node :=
+Definition children (st : pred) (pk : key) (x : node) : list node :=
   match x with
-  | Elem n _ ks => filter (visible st n) ks
+  | Elem n a ks => filter (visible st (child_key pk n a)) ks
   | _ => []
   end.
 
-(* descendant-or-self::node() from a child x of an element named pn, document order *)
-Fixpoint desc_or_self (st : pred) (pn : qname) (x : node) : list node :=
-  if stripped st pn x then [] else
+(* descendant-or-self::node() from a node x looked at with key pk, document order *)
+Fixpoint desc_or_self (st : pred) (pk : key) (x : node) : list node :=
+  if stripped st pk x then [] else
   x :: match x with
-       | Elem n _ ks => flat_map (desc_or_self st n) ks
+       | Elem n a ks => flat_map (desc_or_self st (child_key pk n a)) ks
        | _ => []
        end.
+
+(* the same, every node with the key it is looked at with *)
+Fixpoint desc_keyed (st : pred) (pk : key) (x : node) : list (key * node) :=
+  if stripped st pk x then [] else
+  (pk, x) :: match x with
+             | Elem n a ks => flat_map (desc_keyed st (child_key pk n a)) ks
+             | _ => []
+             end.
 
 Definition is_text (x : node) : bool := match x with Text _ => true | _ => false end.
 Definition is_elem (x : node) : bool := match x with Elem _ _ _ => true | _ => false end.
 
-(* DOMServices::doGetNodeData: the contribution of child x of an element named pn to the string-value
+(* DOMServices::doGetNodeData: the contribution of node x looked at with key pk to the string-value
    (elements: their children's; text: its data unless stripped; comments and PIs: nothing) *)
-Fixpoint sv (st : pred) (pn : qname) (x : node) : str :=
+Fixpoint sv (st : pred) (pk : key) (x : node) : str :=
   match x with
-  | Elem n _ ks => flat_map (sv st n) ks
-  | Text d => if text_ws d && st pn then [] else d
+  | Elem n a ks => flat_map (sv st (child_key pk n a)) ks
+  | Text d => if text_ws d && st (fst pk) && negb (snd pk) then [] else d
   | _ => []
   end.
 
 (* string-value of a node that is itself the context (element / text / comment / PI) *)
-Definition string_value (st : pred) (pn : qname) (x : node) : str :=
+Definition string_value (st : pred) (pk : key) (x : node) : str :=
   match x with
   | Comment d => d
   | PI _ d => d
-  | _ => sv st pn x
+  | _ => sv st pk x
   end.
 
 (* xsl:copy-of / cloneToResultTree: the events sent to the result *)
@@ -212,54 +258,56 @@ Inductive event :=
 | EComment (d : str)
 | EPI (target : N) (d : str).
 
-Fixpoint copy_events (st : pred) (pn : qname) (x : node) : list event :=
+Fixpoint copy_events (st : pred) (pk : key) (x : node) : list event :=
   match x with
-  | Elem n a ks => EStart n a :: flat_map (copy_events st n) ks ++ [EEnd n]
-  | Text d => if text_ws d && st pn then [] else [EChars d]
+  | Elem n a ks => EStart n a :: flat_map (copy_events st (child_key pk n a)) ks ++ [EEnd n]
+  | Text d => if text_ws d && st (fst pk) && negb (snd pk) then [] else [EChars d]
   | Comment d => [EComment d]
   | PI t d => [EPI t d]
   end.
 
 (* ------------------------------------------------------------------------------------------------ *)
 (* a context node with its siblings (enough for the child, descendant, self and sibling axes):
-   the children of the parent are  c_before ++ c_self :: c_after  and the parent is named c_pn *)
-Record ctx := { c_pn : qname; c_before : list node; c_self : node; c_after : list node }.
+   the children of the parent are  c_before ++ c_self :: c_after  and c_pk is the key of the parent,
+   i.e. the key c_self and its siblings are looked at with *)
+Record ctx := { c_pk : key; c_before : list node; c_self : node; c_after : list node }.
 
-Definition ctx_visible (st : pred) (c : ctx) : bool := visible st (c_pn c) (c_self c).
+Definition ctx_visible (st : pred) (c : ctx) : bool := visible st (c_pk c) (c_self c).
 
-(* all ways of picking one element of l, as contexts under parent pn with `pre` before them *)
-Fixpoint picks (pn : qname) (pre : list node) (l : list node) (post : list node) : list ctx :=
+(* all ways of picking one element of l, as contexts looked at with key pk with `pre` before them *)
+Fixpoint picks (pk : key) (pre : list node) (l : list node) (post : list node) : list ctx :=
   match l with
   | [] => []
-  | k :: r => {| c_pn := pn; c_before := pre; c_self := k; c_after := r ++ post |}
-              :: picks pn (pre ++ [k]) r post
+  | k :: r => {| c_pk := pk; c_before := pre; c_self := k; c_after := r ++ post |}
+              :: picks pk (pre ++ [k]) r post
   end.
 
 Definition keep_visible (st : pred) (l : list ctx) : list ctx := filter (ctx_visible st) l.
 
 Definition child_ctxs (st : pred) (c : ctx) : list ctx :=
   match c_self c with
-  | Elem n _ ks => keep_visible st (picks n [] ks [])
+  | Elem n a ks => keep_visible st (picks (child_key (c_pk c) n a) [] ks [])
   | _ => []
   end.
 
 Definition following_sibling_ctxs (st : pred) (c : ctx) : list ctx :=
-  keep_visible st (picks (c_pn c) (c_before c ++ [c_self c]) (c_after c) []).
+  keep_visible st (picks (c_pk c) (c_before c ++ [c_self c]) (c_after c) []).
 
 (* in document order *)
 Definition preceding_sibling_ctxs (st : pred) (c : ctx) : list ctx :=
-  keep_visible st (picks (c_pn c) [] (c_before c) (c_self c :: c_after c)).
+  keep_visible st (picks (c_pk c) [] (c_before c) (c_self c :: c_after c)).
 
-(* descendant contexts of a node x that is a child of pn with the given siblings, document order *)
-Fixpoint desc_ctxs_of (st : pred) (x : node) : list ctx :=
+(* descendant contexts of a node x that is looked at with key pk, document order *)
+Fixpoint desc_ctxs_of (st : pred) (pk : key) (x : node) : list ctx :=
   match x with
-  | Elem n _ ks =>
+  | Elem n a ks =>
       (fix go (pre l : list node) : list ctx :=
          match l with
          | [] => []
          | k :: r =>
-             (if visible st n k
-              then {| c_pn := n; c_before := pre; c_self := k; c_after := r |} :: desc_ctxs_of st k
+             (if visible st (child_key pk n a) k
+              then {| c_pk := child_key pk n a; c_before := pre; c_self := k; c_after := r |}
+                   :: desc_ctxs_of st (child_key pk n a) k
               else [])
              ++ go (pre ++ [k]) r
          end) [] ks
@@ -272,8 +320,8 @@ Definition axis_ctxs (st : pred) (a : axis) (c : ctx) : list ctx :=
   match a with
   | AxSelf => [c]
   | AxChild => child_ctxs st c
-  | AxDescendant => desc_ctxs_of st (c_self c)
-  | AxDescendantOrSelf => c :: desc_ctxs_of st (c_self c)
+  | AxDescendant => desc_ctxs_of st (c_pk c) (c_self c)
+  | AxDescendantOrSelf => c :: desc_ctxs_of st (c_pk c) (c_self c)
   | AxFollowingSibling => following_sibling_ctxs st c
   | AxPrecedingSibling => preceding_sibling_ctxs st c
   end.
@@ -318,28 +366,28 @@ Fixpoint eval_path (st : pred) (p : list step) (c : ctx) : list ctx :=
   end.
 
 (* the image of a context in the physically stripped tree *)
-Definition strip_list (st : pred) (pn : qname) (l : list node) : list node :=
-  filter (visible st pn) (map (remove_stripped st) l).
+Definition strip_list (st : pred) (pk : key) (l : list node) : list node :=
+  filter (visible st pk) (map (remove_stripped st pk) l).
 
 Definition strip_ctx (st : pred) (c : ctx) : ctx :=
-  {| c_pn := c_pn c; c_before := strip_list st (c_pn c) (c_before c);
-     c_self := remove_stripped st (c_self c); c_after := strip_list st (c_pn c) (c_after c) |}.
+  {| c_pk := c_pk c; c_before := strip_list st (c_pk c) (c_before c);
+     c_self := remove_stripped st (c_pk c) (c_self c); c_after := strip_list st (c_pk c) (c_after c) |}.
 
 (* what a stylesheet can print about a selected context node *)
 Record obs := { o_string : str; o_copy : list event; o_position_in_parent : nat; o_siblings : nat;
                 o_child_count : nat; o_desc_count : nat; o_text_desc_count : nat }.
 
 Definition observe (st : pred) (c : ctx) : obs :=
-  {| o_string := string_value st (c_pn c) (c_self c);
-     o_copy := copy_events st (c_pn c) (c_self c);
-     o_position_in_parent := S (length (filter (visible st (c_pn c)) (c_before c)));
-     o_siblings := length (filter (visible st (c_pn c)) (c_before c ++ c_self c :: c_after c));
-     o_child_count := length (children st (c_self c));
-     o_desc_count := length (desc_or_self st (c_pn c) (c_self c));
-     o_text_desc_count := length (filter is_text (desc_or_self st (c_pn c) (c_self c))) |}.
+  {| o_string := string_value st (c_pk c) (c_self c);
+     o_copy := copy_events st (c_pk c) (c_self c);
+     o_position_in_parent := S (length (filter (visible st (c_pk c)) (c_before c)));
+     o_siblings := length (filter (visible st (c_pk c)) (c_before c ++ c_self c :: c_after c));
+     o_child_count := length (children st (c_pk c) (c_self c));
+     o_desc_count := length (desc_or_self st (c_pk c) (c_self c));
+     o_text_desc_count := length (filter is_text (desc_or_self st (c_pk c) (c_self c))) |}.
 
 (* the whole observation language: evaluate a path from the document element, observe every result *)
-Definition root_ctx (d : node) : ctx := {| c_pn := (0, 0)%N; c_before := []; c_self := d; c_after := [] |}.
+Definition root_ctx (d : node) : ctx := {| c_pk := root_key; c_before := []; c_self := d; c_after := [] |}.
 
 Definition run_obs (st : pred) (p : list step) (d : node) : list obs :=
   map (observe st) (eval_path st p (root_ctx d)).
@@ -347,16 +395,18 @@ Definition run_obs (st : pred) (p : list step) (d : node) : list obs :=
 (* ------------------------------------------------------------------------------------------------ *)
 (* for the correspondence driver: the decision for every whitespace-only text node in document order
    (true = stripped), with the decision taken from a stylesheet *)
-Fixpoint ws_decisions (st : pred) (pn : qname) (x : node) : list bool :=
+Fixpoint ws_decisions (st : pred) (pk : key) (x : node) : list bool :=
   match x with
-  | Elem n _ ks => flat_map (ws_decisions st n) ks
-  | Text d => if text_ws d then [st pn] else []
+  | Elem n a ks => flat_map (ws_decisions st (child_key pk n a)) ks
+  | Text d => if text_ws d then [st (fst pk) && negb (snd pk)] else []
   | _ => []
   end.
 
-Fixpoint child_counts (st : pred) (x : node) : list nat :=
+Fixpoint child_counts (st : pred) (pk : key) (x : node) : list nat :=
   match x with
-  | Elem n _ ks => length (filter (visible st n) ks) :: flat_map (child_counts st) ks
+  | Elem n a ks =>
+      let ck := child_key pk n a in
+      length (filter (visible st ck) ks) :: flat_map (child_counts st ck) ks
   | _ => []
   end.
 
@@ -364,35 +414,22 @@ Record report := { r_decisions : list bool; r_string : str; r_nodes : nat; r_tex
 
 Definition model_report (s : sheet) (d : node) : report :=
   let st := sheet_strip s in
-  {| r_decisions := ws_decisions st (0, 0)%N d;
-     r_string := sv st (0, 0)%N d;
-     r_nodes := length (desc_or_self st (0, 0)%N d);
-     r_texts := length (filter is_text (desc_or_self st (0, 0)%N d));
-     r_kids := child_counts st d |}.
+  {| r_decisions := ws_decisions st root_key d;
+     r_string := sv st root_key d;
+     r_nodes := length (desc_or_self st root_key d);
+     r_texts := length (filter is_text (desc_or_self st root_key d));
+     r_kids := child_counts st root_key d |}.
 
 (* ------------------------------------------------------------------------------------------------ *)
-(* XSLT 1.0 section 3.4 including xml:space (NOT what the code does): a whitespace text node is kept
-   when the nearest ancestor-or-self-of-parent xml:space attribute says preserve.
-   xs = the inherited xml:space state (true = preserve). *)
-Definition xml_ns : N := 1.          (* namespace id reserved for http://www.w3.org/XML/1998/namespace *)
-Definition space_local : N := 1.     (* local-name id reserved for "space" inside xml_ns *)
-Definition preserve_value : str := [112; 114; 101; 115; 101; 114; 118; 101]%N.   (* "preserve" *)
-Definition default_value : str := [100; 101; 102; 97; 117; 108; 116]%N.          (* "default" *)
-
-Definition str_eqb (a b : str) : bool :=
-  (fix go a b := match a, b with [] , [] => true | x :: a', y :: b' => N.eqb x y && go a' b' | _, _ => false end) a b.
-
-Definition xml_space_of (xs : bool) (attrs : list (qname * str)) : bool :=
-  match find (fun a => N.eqb (fst (fst a)) xml_ns && N.eqb (snd (fst a)) space_local) attrs with
-  | Some (_, v) => if str_eqb v preserve_value then true else if str_eqb v default_value then false else xs
-  | None => xs
-  end.
-
+(* XSLT 1.0 section 3.4 including xml:space, stated on its own (without keys): a whitespace text node
+   is kept when the nearest ancestor-or-self-of-parent xml:space attribute says preserve.
+   xs = the inherited xml:space state (true = preserve).  [remove_stripped st (q, xs)] is this function
+   (StripTreeModel.xml_space_rule_lemma). *)
 Fixpoint rec_remove (st : pred) (xs : bool) (x : node) : node :=
   match x with
   | Elem n a ks =>
       let xs' := xml_space_of xs a in
-      Elem n a (filter (fun k => xs' || visible st n k) (map (rec_remove st xs') ks))
+      Elem n a (filter (fun k => xs' || visible st (n, false) k) (map (rec_remove st xs') ks))
   | _ => x
   end.
 
